@@ -27,6 +27,7 @@ VARIANTS = {
     "fips": ["D=" + " ".join([GUARD] + ASDEFS), "FIPS_MODE=y"],
     "nohook": ["D=" + " ".join(ASDEFS)],
     "nosafe": ["D=" + " ".join([GUARD] + ASDEFS), "SAFE_DATA=n"],
+    "fipsnsp": ["D=" + " ".join([GUARD] + ASDEFS), "FIPS_MODE=y", "SAFE_PARAM=n"],     # FIPS gate without the parameter checks
 }
 
 
